@@ -286,7 +286,8 @@ func c09Run(c *vk.Ctx) {
 			}
 		}
 		c.Progress("C09 config %d: %d services, %d legacy keys, aliased=%v", ci, len(cf.Services), len(cf.Legacy), aliased)
-		srv, err := StartServer(c.RunDir, cf, ServerOpts{UDPTimeout: 2 * time.Second})
+		// (replay history on for two configurations out of three: one cache serves all listeners)
+		srv, err := StartServer(c.RunDir, cf, ServerOpts{UDPTimeout: 2 * time.Second, ReplayHistory: []int{0, 1000, 20000}[ci%3]})
 		if err != nil && aliased {
 			c.Count("aliased_listener_configurations_refused", 1)
 			c.Eval("config|aliased-listener-address|refused")
@@ -367,8 +368,17 @@ func c09Run(c *vk.Ctx) {
 		// concurrent pass: many clients authenticate at the same moment on one listener, with its
 		// own keys and with foreign ones; the outcome of every exchange is the same as alone
 		if ok {
+			var tcpEps []Endpoint
 			for _, ep := range eps {
-				if ep.Type != "tcp" || !ok {
+				if ep.Type == "tcp" {
+					tcpEps = append(tcpEps, ep)
+				}
+			}
+			// first listener by listener, then (last round) every client picks its listener at random, so
+			// that handshakes are in progress on several services at the same moment
+			rounds := append(append([]Endpoint(nil), tcpEps...), Endpoint{Type: "all"})
+			for ri, epRound := range rounds {
+				if !ok || len(tcpEps) == 0 {
 					continue
 				}
 				var wg sync.WaitGroup
@@ -376,10 +386,14 @@ func c09Run(c *vk.Ctx) {
 				var done atomic.Int64
 				for w := 0; w < 12; w++ {
 					wg.Add(1)
-					wr := c.SubRng("c09conc", ci*1000+w)
+					wr := c.SubRng("c09conc", ci*1000+ri*16+w) // a PRNG of its own per round: salts are never repeated (the replay history is on)
 					go func(w int) {
 						defer wg.Done()
 						for i := 0; i < c.N(12, 40) && bad.Load() == nil; i++ {
+							ep := epRound
+							if ep.Type == "all" {
+								ep = tcpEps[wr.Intn(len(tcpEps))]
+							}
 							k := keys[wr.Intn(len(keys))]
 							if wr.Intn(3) > 0 {
 								k = ep.Keys[wr.Intn(len(ep.Keys))]
@@ -452,7 +466,7 @@ func init() {
 	vk.Register(&vk.Spec{
 		ID:          "C09",
 		Level:       "exploration",
-		Rule:        "PRNG configurations for the real binary (0..4 services with 1..3 tcp/udp listeners on distinct IPv4/IPv6/wildcard addresses and 1..5 keys, duplicate cipher+secret inside a service under another id, the same material in other services under other ids, 0..2 legacy ports incl. one key on two ports, mixtures of both formats); every (listener, key) pair of the configuration is probed (sequentially from one client host with a history pass, then 12 clients concurrently per TCP listener); class = (listener type, owner kind, owned, cipher, duplicate-in-owner)",
+		Rule:        "PRNG configurations for the real binary (0..4 services with 1..3 tcp/udp listeners on distinct IPv4/IPv6/wildcard addresses and 1..5 keys, duplicate cipher+secret inside a service under another id, the same material in other services under other ids, 0..2 legacy ports incl. one key on two ports, mixtures of both formats); every (listener, key) pair of the configuration is probed (sequentially from one client host with a history pass, then 12 clients concurrently per TCP listener and across all TCP listeners at once; replay history 0/1000/20000); class = (listener type, owner kind, owned, cipher, duplicate-in-owner)",
 		Assumptions: []string{"attribution is read from /metrics deltas of the running process (tcp_connections_closed, data_bytes, udp_nat_entries_added)", "negative TCP pairs send a FIN so that the 59 s probe timeout does not have to elapse"},
 		Batches:     func(t string) int { return map[string]int{"quick": 4, "thorough": 16}[t] },
 		Parallel:    func(t string) int { return 4 },
